@@ -442,9 +442,19 @@ func checkC11(c *Ctx) {
 		}
 		jobs = append(jobs, Job{S: s, Rig: "ps", Judge: "ps-c11", Tag: "c11-ps-resetup"})
 	}
+	// "... and agrees with the library's own PLMN conversion": PlmnIDToNas is called, in processes that
+	// convert several PLMNs one after the other (among them MNC ab and 0ab of one MCC), and compared
+	// with the reference encoding
+	for i := 0; i < nPS/2; i++ {
+		jobs = append(jobs, Job{S: probeScenario(rp, i), Rig: "ps", Judge: "ps-probe-c11", Tag: "c11-plmn-conversion"})
+	}
 	triples := map[string]bool{}
 	c.Batch(jobs, func(j Job, r *Run, fs []Finding) {
 		cfg := j.S.Config
+		if j.Tag == "c11-plmn-conversion" {
+			c.Probes["library-plmn-conversions"] += 2 * len(j.S.Rig["probes"].([]interface{}))
+			return
+		}
 		if j.Tag == "c11-ps-resetup" {
 			c.Probes["second-ng-setup-for-another-plmn"]++
 			triples[fmt.Sprintf("resetup/%s/%s/%s", cfg.MCC, cfg.MNC, j.S.ResetupPLMN)] = true
